@@ -53,6 +53,25 @@ def render(rng, forms):
     return "".join(out), extents
 
 
+# material that may stand BEFORE the failing form: tokens that span several lines (raw line breaks inside string literals and
+# |identifiers|), so that the line counter must be kept right through them
+MULTILINE = ['(define ml%d "first line\nsecond line")', '(define ml%d "x\n\ny\\n\nz")', '"a\nb"', "(quote |p\nq|)",
+             '(define ml%d (list "(\n" 1 "\n)"))', '(define ml%d "tab\\t\nline")']
+
+# faults raised at an identifier that a MACRO TEMPLATE introduced (not written in the failing form): the position reported
+# is that of the macro use. (definitions placed before, failing form, expected kind, the macro use inside the failing form)
+MACRO_FAULTS = [
+    ([], "((lambda (memv) (case 1 ((1) 2) (else 3))) 5)", "nonProcedure", "(case 1 ((1) 2) (else 3))"),
+    ([], "((lambda (not) (unless #f 1)) 5)", "nonProcedure", "(unless #f 1)"),
+    ([], "(let ((not 5)) (unless #f 1))", "nonProcedure", "(unless #f 1)"),
+    (["(define-syntax rf-zz (syntax-rules () ((_ e) (report-failure-zz e 1))))"], "(rf-zz 1)", "unbound", "(rf-zz 1)"),
+    (["(define-syntax ap-zz (syntax-rules () ((_ e) (e 1))))"], "(ap-zz 5)", "nonProcedure", "(ap-zz 5)"),
+    (["(define-syntax sw-zz (syntax-rules () ((_ a b) (b a))))"], "(sw-zz 1 undefined-var-zz)", "unbound", "(sw-zz 1 undefined-var-zz)"),
+    (["(define-syntax two-zz (syntax-rules () ((_ a ...) (begin (helper-zz a) ...))))"], "(two-zz 1 2)", "unbound", "(two-zz 1 2)"),
+]
+WRAPS = ["%s", "(let ((t 1)) %s)", "(if #t %s 0)", "(begin 0 %s)", "(list 1 %s)", "((lambda (q) %s) 1)"]
+
+
 def within(loc, a, b):
     return a <= loc <= b
 
@@ -71,15 +90,26 @@ def run(rep, tier, rng):
     for i in range(n):
         g = P.Gen(rng, ticks=False)
         base = g.toplevel(rng.randrange(2, 7))
-        faulty, pos, kind, ctx = P.inject_fault(rng, g, base)
+        use = None
+        if rng.random() < 0.2:
+            defs, form, kind, use = rng.choice(MACRO_FAULTS)
+            at = rng.randrange(0, len(base) + 1)
+            faulty = base[:at] + defs + [rng.choice(WRAPS) % form] + base[at:]
+            pos, ctx = at + len(defs), "macro-introduced identifier"
+        else:
+            faulty, pos, kind, ctx = P.inject_fault(rng, g, base)
+        for _ in range(rng.choice([0, 0, 1, 2])):
+            at = rng.randrange(0, pos + 1)
+            faulty = faulty[:at] + [rng.choice(MULTILINE).replace("%d", str(rng.randrange(1000)))] + faulty[at:]
+            pos += 1
         text, extents = render(rng, faulty)
         cases.append(("e%d" % i, "prog", ["std", text]))
-        meta["e%d" % i] = (faulty, pos, kind, ctx, text, extents)
+        meta["e%d" % i] = (faulty, pos, kind, ctx, text, extents, use)
     impl = C.run_hx(cases)
     model = C.run_driver(cases)
     dist = {}
     for cid, _, f in cases:
-        faulty, pos, kind, ctx, text, extents = meta[cid]
+        faulty, pos, kind, ctx, text, extents, use = meta[cid]
         a = impl.get(cid, ["?"])[0]
         b = model.get(cid, ["?"])[0]
         rep.count()
@@ -103,6 +133,14 @@ def run(rep, tier, rng):
         problem = None
         if not within((l, c), start, end):
             problem = "the reported location %d:%d is outside the failing form (which spans %s - %s)" % (l, c, start, end)
+        elif use is not None:
+            if k != kind:
+                problem = "expected an error of kind %s, got %s" % (kind, k)
+            else:
+                ft = find_fault_tokens(tok_ext, TOKEN.findall(use))
+                if ft and not within((l, c), ft[0][1], ft[-1][2]):
+                    problem = "the reported location %d:%d is not at the macro use that introduced the offending identifier (%s - %s)" % (
+                        l, c, ft[0][1], ft[-1][2])
         elif k in ("unbound", "nonProcedure") and kind == k:
             # the offending identifier / operator token(s)
             form = faulty[pos]
@@ -134,7 +172,8 @@ def run(rep, tier, rng):
 def main(tier, seed):
     rep = C.Report(PROP, tier, seed)
     rng = random.Random(seed)
-    rep.cov["rule"] = ("random programs of 3-7 forms with one injected faulty form (8 fault kinds x 6 calling contexts), rendered as one "
+    rep.cov["rule"] = ("random programs of 3-7 forms with one injected faulty form (8 fault kinds x 6 calling contexts, or a fault at an identifier introduced "
+                       "by a bundled / user macro template), multi-line string and |identifier| tokens among the preceding forms, rendered as one "
                        "text with random line breaks inside forms, indentation, comments and blank lines between forms; the extent of "
                        "every form and token is recorded by the renderer; distinct = distinct texts")
     ok = C.standard_proof_phase(rep, MODULES, directed_search=lambda r: run(r, tier, rng))
